@@ -400,6 +400,15 @@ def run(ctx):
 
     solver_postconditions(ctx, 'C03.R4')
 
+    # the quantity already present that a fill target is compared with is the measure of the whole mixture in the
+    # target's unit (a total that leaves a kind of substance out accepts targets below what is present)
+    from .c02 import siblings as _siblings
+    before_ = len(ctx.obs)
+    _siblings(ctx)
+    kept_ = [o for o in ctx.obs[before_:] if o.func == 'Container.fill_to']
+    for o in kept_:
+        o.rule = 'C03.R3'
+    ctx.obs[before_:] = kept_
     # ------------------------------------------------------------------ R5 refusal type
     n_ref = 0
     for cname in ('Container', 'Plate'):
